@@ -216,6 +216,51 @@ static void frame_facts(const uint8_t* f, size_t fsz, size_t n, const vparams* P
 out:
     refdec_info_free(&I); refdec_dict_free(rd);
 }
+
+/* ---- struct setters of the static API: ZSTD_CCtx_setCParams / setFParams / setParams. In-bounds structs are accepted and read back through
+ * getParameter, a struct with one field out of its advertised bounds is rejected, and a rejected call changes nothing (all-or-nothing). */
+static void struct_setters(long idx)
+{
+    static const ZSTD_cParameter F7[7] = { ZSTD_c_windowLog, ZSTD_c_chainLog, ZSTD_c_hashLog, ZSTD_c_searchLog, ZSTD_c_minMatch, ZSTD_c_targetLength, ZSTD_c_strategy };
+    static const char* const F7n[7] = { "windowLog", "chainLog", "hashLog", "searchLog", "minMatch", "targetLength", "strategy" };
+    vrng r = vr_make(V.seed, 216, (uint64_t)idx);
+    for (int round = 0; round < 12; round++) {
+        ZSTD_CCtx* c = ZSTD_createCCtx(); cvec before, after;
+        /* some accepted prior state that the call must not disturb */
+        ZSTD_CCtx_setParameter(c, ZSTD_c_compressionLevel, (int)vr_range(&r, 1, 12)); ZSTD_CCtx_setParameter(c, ZSTD_c_checksumFlag, (int)vr_u(&r, 2)); ZSTD_CCtx_setParameter(c, ZSTD_c_contentSizeFlag, (int)vr_u(&r, 2)); ZSTD_CCtx_setParameter(c, ZSTD_c_dictIDFlag, (int)vr_u(&r, 2));
+        if (vr_chance(&r, 1, 2)) ZSTD_CCtx_setParameter(c, ZSTD_c_windowLog, (int)vr_range(&r, 10, 20)); if (vr_chance(&r, 1, 3)) ZSTD_CCtx_setParameter(c, ZSTD_c_enableLongDistanceMatching, 1);
+        ZSTD_compressionParameters cp = ZSTD_getCParams((int)vr_range(&r, 1, 19), vr_chance(&r, 1, 2) ? 100000 : 0, 0); int v7[7]; int lo7[7], hi7[7];
+        if (cp.windowLog > 21) cp.windowLog = 21; if (cp.hashLog > 21) cp.hashLog = 21; if (cp.chainLog > 21) cp.chainLog = 21;
+        for (int i = 0; i < 7; i++) { ZSTD_bounds const b = ZSTD_cParam_getBounds(F7[i]); lo7[i] = b.lowerBound; hi7[i] = b.upperBound; }
+        if (vr_chance(&r, 1, 2)) { cp.searchLog = (unsigned)vr_range(&r, 1, 7); cp.minMatch = (unsigned)vr_range(&r, 3, 7); cp.targetLength = (unsigned)vr_u(&r, 1000); cp.strategy = (ZSTD_strategy)vr_range(&r, 1, 9); cp.windowLog = (unsigned)vr_range(&r, 10, 21); }
+        int bad = -1;
+        if (vr_chance(&r, 1, 2)) { bad = (int)vr_u(&r, 7); int const bv = vr_chance(&r, 1, 2) ? lo7[bad] - 1 : hi7[bad] + 1; unsigned* fld[7] = { &cp.windowLog, &cp.chainLog, &cp.hashLog, &cp.searchLog, &cp.minMatch, &cp.targetLength, NULL };
+            if (bad == 6) cp.strategy = (ZSTD_strategy)bv; else *fld[bad] = (unsigned)bv; }
+        v7[0] = (int)cp.windowLog; v7[1] = (int)cp.chainLog; v7[2] = (int)cp.hashLog; v7[3] = (int)cp.searchLog; v7[4] = (int)cp.minMatch; v7[5] = (int)cp.targetLength; v7[6] = (int)cp.strategy;
+        ZSTD_frameParameters fp; fp.contentSizeFlag = (int)vr_u(&r, 2); fp.checksumFlag = (int)vr_u(&r, 2); fp.noDictIDFlag = (int)vr_u(&r, 2);
+        int const which = (int)vr_u(&r, 3); const char* const wn = which == 0 ? "ZSTD_CCtx_setCParams" : which == 1 ? "ZSTD_CCtx_setFParams" : "ZSTD_CCtx_setParams";
+        int const midframe = vr_chance(&r, 1, 6); if (midframe) start_frame(c);
+        getvec(c, &before);
+        size_t e; if (which == 0) e = ZSTD_CCtx_setCParams(c, cp); else if (which == 1) e = ZSTD_CCtx_setFParams(c, fp); else { ZSTD_parameters zp; zp.cParams = cp; zp.fParams = fp; e = ZSTD_CCtx_setParams(c, zp); }
+        getvec(c, &after); v_stat("struct_setter_calls", 1); v_cell("struct_setter", "%s|%s|%s|%s", wn, bad >= 0 && which != 1 ? "one-field-out-of-bounds" : "in-bounds", midframe ? "mid-frame" : "idle", ZSTD_isError(e) ? "rejected" : "accepted");
+        if (ZSTD_isError(e)) { int const d = vec_diff(&before, &after); if (d >= 0) v_viol("rejected-call-changed-a-parameter", "%s rejected (%s; %s field %s) but %s changed %d -> %d", wn, ZSTD_getErrorName(e), midframe ? "mid-frame" : "idle", bad >= 0 ? F7n[bad] : "-", CPARAMS[d].name, before.v[d], after.v[d]);
+            if (!midframe && (bad < 0 || which == 1)) v_viol("struct-setter:in-bounds-struct-rejected", "%s: %s", wn, ZSTD_getErrorName(e)); }
+        else {
+            if (bad >= 0 && which != 1) v_viol("out-of-range-value-accepted-and-stored", "%s accepted %s=%d, advertised bounds [%d,%d]", wn, F7n[bad], v7[bad], lo7[bad], hi7[bad]);
+            else {
+                for (int i = 0; i < NCP; i++) {   /* fields named by the struct read back as given, everything else untouched */
+                    int expect = before.v[i]; int named = 0;
+                    if (which != 1) for (int k = 0; k < 7; k++) if (CPARAMS[i].p == F7[k]) { expect = v7[k]; named = 1; }
+                    if (which != 0) { if (CPARAMS[i].p == ZSTD_c_contentSizeFlag) { expect = fp.contentSizeFlag != 0; named = 1; } if (CPARAMS[i].p == ZSTD_c_checksumFlag) { expect = fp.checksumFlag != 0; named = 1; } if (CPARAMS[i].p == ZSTD_c_dictIDFlag) { expect = !fp.noDictIDFlag; named = 1; } }
+                    if (after.ok[i] && after.v[i] != expect) v_viol(named ? "read-back-differs-from-accepted-value" : "struct-setter:changed-an-unrelated-parameter", "%s: %s reads back %d, expected %d", wn, CPARAMS[i].name, after.v[i], expect); }
+                if (!midframe) {   /* and they are in force on the next frame */
+                    size_t const n = 60000; size_t const cs = ZSTD_compress2(c, g_dst, sizeof g_dst, g_src, n); vparams Q; memset(&Q, 0, sizeof Q);
+                    int t = 0; ZSTD_CCtx_getParameter(c, ZSTD_c_checksumFlag, &t); Q.checksum = t; ZSTD_CCtx_getParameter(c, ZSTD_c_contentSizeFlag, &t); Q.contentSize = t; ZSTD_CCtx_getParameter(c, ZSTD_c_windowLog, &t); Q.windowLog = t; snprintf(Q.desc, sizeof Q.desc, "%s", wn);
+                    if (ZSTD_isError(cs)) v_viol("sticky:compression-fails-with-accepted-parameters", "after %s: %s", wn, ZSTD_getErrorName(cs)); else frame_facts(g_dst, cs, n, &Q, wn, NULL, 0, -1); } } }
+        if (midframe) { ZSTD_inBuffer in = { g_src, 0, 0 }; ZSTD_outBuffer out = { g_dst, sizeof g_dst, 0 }; size_t rr; do { rr = ZSTD_compressStream2(c, &out, &in, ZSTD_e_end); } while (!ZSTD_isError(rr) && rr); if (ZSTD_isError(rr)) v_viol("mid-frame:frame-cannot-be-finished-after-refused-set", "%s: %s", wn, ZSTD_getErrorName(rr)); }
+        ZSTD_freeCCtx(c);
+    }
+}
 static uint8_t g_dictbuf[8192]; static size_t g_dictlen;
 static void run_random(long idx)
 {
@@ -272,6 +317,6 @@ int main(int argc, char** argv)
         extern size_t ZDICT_trainFromBuffer(void*, size_t, const void*, const size_t*, unsigned);
         size_t d = ZDICT_trainFromBuffer(g_dictbuf, sizeof g_dictbuf, g_src, sizes, 200); g_dictlen = ZSTD_isError(d) ? 0 : d; }
     vp_trace_on = 0;
-    for (long i = V.from; i < V.to; i++) { v_case(i); v_budget(1200); if (i == 0) grid(); else run_random(i); }
+    for (long i = V.from; i < V.to; i++) { v_case(i); v_budget(1200); if (i == 0) grid(); else { run_random(i); if (i % 4 == 1) struct_setters(i); } }
     return v_finish();
 }
